@@ -66,6 +66,40 @@ def run_property(prop, facts, tier):
     return ctx, rids
 
 
+def run_sensitivity(prop):
+    import glob, subprocess
+    from tools import mut
+    res = {"applied": 0, "caught": 0, "insensitive": [], "skipped": []}
+    env = dict(os.environ, VERIF_NO_SENSITIVITY="1")
+    patches = sorted(glob.glob(os.path.join(VERIF, "mutants", prop, "*.patch")))
+    for path in patches:
+        r = mut.run_one(path)
+        name = os.path.relpath(path, VERIF)
+        if r["status"].startswith("skipped"):
+            res["skipped"].append(name)
+            continue
+        res["applied"] += 1
+        if r["status"] in ("caught", "caught-by-other-rule"):
+            res["caught"] += 1
+        else:
+            res["insensitive"].append(name)
+    for d in sorted(glob.glob(os.path.join(VERIF, "seeded", prop + "-*"))):
+        pth = os.path.join(d, "patch.diff")
+        if not os.path.exists(pth):
+            continue
+        fired = mut.run_seed(pth, [prop])
+        name = os.path.relpath(pth, VERIF)
+        if not fired:
+            res["skipped"].append(name)
+            continue
+        res["applied"] += 1
+        if fired.get(prop):
+            res["caught"] += 1
+        else:
+            res["insensitive"].append(name)
+    return res
+
+
 def main():
     ap = argparse.ArgumentParser()
     ap.add_argument("prop")
@@ -100,6 +134,12 @@ def main():
             if not o.ok and o.key not in have:
                 o.key = o.key + "@release"
                 ctx.obs.append(o)
+    sensitivity = None
+    if a.tier == "thorough" and a.src == "/repo" and not os.environ.get("VERIF_NO_SENSITIVITY"):
+        # checker self-test, recorded in evidence, never part of the verdict: every stored mutant and
+        # seeded change of this property is applied to a scratch copy of the current tree and the
+        # rules must fire on it
+        sensitivity = run_sensitivity(prop)
     known, fixed = load_known()
     viol, known_hits = [], []
     for o in ctx.obs:
@@ -135,6 +175,7 @@ def main():
             "bodies_in_fact_base": len(list(facts.body_names())),
             "known_findings": [o.key for o in known_hits],
             "rules": {r: registry.RULES[r][0] for r in rids},
+            "sensitivity": sensitivity,
         },
         "assumptions": ["MIR at -Zmir-opt-level=0 faithfully represents the source", "normal-completion CFG: panics are separate obligations (C15)"],
         "wall_s": round(wall, 2), "violations": len(viol),
@@ -146,8 +187,16 @@ def main():
         print(json.dumps([o.as_dict() for o in ctx.obs if not o.ok]))
     for o in known_hits:
         print("KNOWN-FINDING: property=%s %s %s" % (prop, o.key, known[(prop, o.key)]))
+    wall = time.time() - t0
+    ev["wall_s"] = round(wall, 2)
+    if not a.no_evidence and a.src == "/repo":
+        with open(os.path.join(ev_dir, "%s.json" % prop), "w") as f:
+            json.dump(ev, f, indent=1)
     print("%s tier=%s rules=%s obligations=%d discharged=%d violated=%d known=%d wall=%.1fs" % (
         prop, a.tier, ",".join(rids), len(ctx.obs), sum(1 for o in ctx.obs if o.ok), len(viol), len(known_hits), wall))
+    if sensitivity is not None:
+        print("  sensitivity (checker self-test, not part of the verdict): %d changes applied, %d caught, insensitive: %s, skipped: %d" % (
+            sensitivity["applied"], sensitivity["caught"], sensitivity["insensitive"], len(sensitivity["skipped"])))
     if viol:
         if a.src == "/repo" and not a.no_evidence:
             with open(replay, "w") as f:
